@@ -36,3 +36,54 @@ impl<N> Dag<N, Edge, FnIdInner> {
                 && forall|i: int| 0 <= i < edges.rest().len() ==> f((#[trigger] edges.rest()[i]).0.0.0 as int) < f(edges.rest()[i].1.0.0 as int)) ==> r is Ok,
     { unimplemented!() }
 }
+
+// ---- pieces used by `impl PartialEq for GraphInfo` (ASSUMED: petgraph raw_nodes, std Iterator::eq) ----
+/// petgraph `Node<N>` as exposed by raw_nodes(): public `weight`
+pub struct RawNodeW<N> { pub weight: N }
+
+#[verifier::external_body]
+#[verifier::reject_recursive_types(N)]
+pub struct RawNodesW<N> { _p: PhantomData<N> }
+
+impl<N> RawNodesW<N> {
+    pub uninterp spec fn ws(&self) -> Seq<N>;
+    /// `<[Node<N>]>::iter`: the nodes in index (insertion) order
+    #[verifier::external_body]
+    pub fn vx_iter(&self) -> (r: VxIter<&RawNodeW<N>>)
+        ensures r.rest().len() == self.ws().len(), forall|i: int| 0 <= i < self.ws().len() ==> (#[trigger] r.rest()[i]).weight == self.ws()[i],
+    { unimplemented!() }
+}
+
+impl<N> Dag<N, Edge, FnIdInner> {
+    /// `Dag::raw_nodes()` with the weights visible (R4: renamed `vx_raw_nodes_w` for this unit)
+    #[verifier::external_body]
+    pub fn vx_raw_nodes_w(&self) -> (r: &RawNodesW<N>)
+        ensures r.ws() == self.weights(),
+    { unimplemented!() }
+}
+
+impl<'a, N: PartialEq> VxIter<&'a N> {
+    /// Iterator::eq on two iterators of references: same length and pairwise `==`
+    #[verifier::external_body]
+    pub fn eq(self, other: VxIter<&'a N>) -> (r: bool)
+        requires N::obeys_eq_spec(),
+        ensures r <==> (self.rest().len() == other.rest().len() && forall|i: int| 0 <= i < self.rest().len() ==> (#[trigger] self.rest()[i]).eq_spec(other.rest()[i])),
+    { unimplemented!() }
+}
+
+impl<'a> VxIter<(NodeIndex<FnIdInner>, NodeIndex<FnIdInner>, &'a Edge)> {
+    /// Iterator::eq on two iterators of (source, target, &kind): same length and pairwise equal components
+    #[verifier::external_body]
+    pub fn eq(self, other: VxIter<(NodeIndex<FnIdInner>, NodeIndex<FnIdInner>, &'a Edge)>) -> (r: bool)
+        ensures r <==> (self.rest().len() == other.rest().len() && forall|i: int| 0 <= i < self.rest().len() ==>
+            (#[trigger] self.rest()[i]).0 == other.rest()[i].0 && self.rest()[i].1 == other.rest()[i].1 && *self.rest()[i].2 == *other.rest()[i].2),
+    { unimplemented!() }
+}
+
+/// the meaning of `GraphInfo == GraphInfo`: same node infos in insertion order, same edge list with kinds
+pub open spec fn graph_infos_equal<N: PartialEq>(a: &Dag<N, Edge, FnIdInner>, b: &Dag<N, Edge, FnIdInner>) -> bool {
+    &&& a.n() == b.n()
+    &&& forall|i: int| 0 <= i < a.n() ==> (#[trigger] a.weights()[i]).eq_spec(&b.weights()[i])
+    &&& a.edges().len() == b.edges().len()
+    &&& forall|e: int| 0 <= e < a.edges().len() ==> #[trigger] a.edges()[e] == b.edges()[e]
+}
